@@ -36,6 +36,10 @@ THEOREMS = [
     "PorepyVerif.C44.sh_clip_complete_planar",
     "PorepyVerif.C44.inRegion_halfPlanes_iff",
     "PorepyVerif.C44.sh2_hull_sound",
+    "PorepyVerif.C44.convexCCWb_iff",
+    "PorepyVerif.C44.inRegion_halfPlanes_cw",
+    "PorepyVerif.C44.clip_convex_polygon_exact",
+    "PorepyVerif.C44.sh_clip_complete_decidable",
 ]
 LEAN_MODULES = ["PorepyVerif.C44.Props"]
 AUDIT = "PorepyVerif/C44/Audit.lean"
@@ -49,7 +53,10 @@ RULE = ("70% `lines` cases: a simple polygon with integer (sometimes one dyadic)
         "bounding box, zero length, far outside.  30% `p3d` cases: a convex polyhedron (box, tetrahedron, prism, pyramid, octahedron, "
         "parallelepiped, some integer-sheared) and 1-3 convex planar polygons (axis-parallel or oblique plane, through polyhedron "
         "vertices / edge midpoints, fully inside / outside, with edges in face planes; about 3% in the plane of a face = documented "
-        "unsupported input, soundness only).  non-trivial = a lines case with at least one segment that is properly cut (neither "
+        "unsupported input, soundness only).  Strata (counted in stats): lines — no segments at all, triangle, a segment repeated and reversed, "
+        "points shared between segments in permuted order, exact dyadic scaling 2^-6..2^12 with shift, 3-row arrays; p3d — single polygon passed "
+        "as an array, the same polygon twice, a polygon beyond the bounding box first in the list, rotated / reversed vertex order; every "
+        "lines result is clipped a second time (must come back unchanged).  non-trivial = a lines case with at least one segment that is properly cut (neither "
         "untouched nor removed) or a p3d case whose exact clipped area is positive and smaller than the polygon; distinct = distinct inputs")
 TRUSTED = [
     "the Lean model is the exact SPECIFICATION (lines_by_polygon delegates to shapely/GEOS, polygons_by_polyhedron to polygons_3d, "
@@ -543,36 +550,79 @@ def gen_polygon3d(rng, faces):
         q = rng.choice(poly2)
         poly2 = [(p[0] - q[0], p[1] - q[1]) for p in poly2]
     poly = [add3(O, add3(sc3(scale * p[0], U), sc3(scale * p[1], V))) for p in poly2]
-    return poly, kind
+    return poly, kind, {"uv": [[frac(scale * p[0]), frac(scale * p[1])] for p in poly2],
+                        "frame": [_s2(O), _s2(U), _s2(V)]}
 
 
 def _s2(p):
     return [frac(x) for x in p]
 
 
+LINES_STRATA = ["plain"] * 10 + ["no-segments", "triangle", "duplicate-segments", "shared-points", "scaled", "three-rows"]
+P3D_STRATA = ["plain"] * 8 + ["as-array", "duplicate-polygons", "outside-bbox", "rotated-reversed"]
+
+
 def gen_case(rng, tier):
     if rng.random() < 0.7:
+        stratum = rng.choice(LINES_STRATA)
         poly, fam = gen_polygon(rng)
-        k = rng.randint(1, 5)
+        if stratum == "triangle":  # smallest polygon
+            while True:
+                poly = [(F(rng.randint(-5, 5)), F(rng.randint(-5, 5))) for _ in range(3)]
+                if cross(sub(poly[1], poly[0]), sub(poly[2], poly[0])) != 0:
+                    fam = "triangle"
+                    break
+        k = 0 if stratum == "no-segments" else rng.randint(1, 5)
         segs, kinds = [], []
         for _ in range(k):
             a, b, kind = gen_segment(rng, poly)
             segs.append([_s2(a), _s2(b)])
             kinds.append(kind)
+        if stratum == "duplicate-segments":  # the same segment again, once reversed
+            j = rng.randrange(k)
+            segs += [segs[j], segs[j][::-1]]
+            kinds += [kinds[j], kinds[j]]
+            k += 2
+        scale = None
+        if stratum == "scaled":  # exact dyadic scaling and an integer shift (extreme scale)
+            sc, sh = F(2) ** rng.choice([-6, -3, 8, 12]), (rng.randint(-3, 3), rng.randint(-3, 3))
+            tr = lambda q: (sc * (F(q[0]) + sh[0]), sc * (F(q[1]) + sh[1]))
+            poly = [tr(q) for q in poly]
+            segs = [[_s2(tr(_pts([e])[0])) for e in sg] for sg in segs]
+            scale = frac(sc)
         ntag = rng.choice([0, 1, 1, 2])
         tags = [[rng.randint(0, 9) for _ in range(k)] for _ in range(ntag)]
-        return {"kind": "lines", "fam": fam, "poly": [_s2(p) for p in poly], "segs": segs, "seg_kinds": kinds, "tags": tags}
+        return {"kind": "lines", "fam": fam, "stratum": stratum, "poly": [_s2(p) for p in poly], "segs": segs, "seg_kinds": kinds,
+                "tags": tags, "scale": scale}
     faces, fam = gen_polyhedron(rng)
-    polys, kinds = [], []
-    for _ in range(rng.choice([1, 1, 1, 2, 3])):
+    stratum = rng.choice(P3D_STRATA)
+    polys, kinds, planes = [], [], []
+    n = 1 if stratum == "as-array" else rng.choice([1, 1, 1, 2, 3])
+    for _ in range(n):
         for _attempt in range(6):
-            p, kind = gen_polygon3d(rng, faces)
+            p, kind, plane = gen_polygon3d(rng, faces)
             # polygons in the plane of a face are unsupported input: keep only a few of them
             if "coplanar" not in flags3(faces, p) or rng.random() < 0.15:
                 break
+        if stratum == "rotated-reversed":  # other start vertex / other orientation of the same polygon
+            r = rng.randrange(len(p))
+            p, plane = p[r:] + p[:r], dict(plane, uv=plane["uv"][r:] + plane["uv"][:r])
+            if rng.random() < 0.5:
+                p, plane = p[::-1], dict(plane, uv=plane["uv"][::-1])
         polys.append([_s2(v) for v in p])
         kinds.append(kind)
-    return {"kind": "p3d", "fam": fam, "faces": [[_s2(v) for v in f] for f in faces], "polygons": polys, "poly_kinds": kinds}
+        planes.append(plane)
+    if stratum == "duplicate-polygons":
+        polys.append(polys[0]); kinds.append(kinds[0]); planes.append(planes[0])
+    if stratum == "outside-bbox":  # a polygon beyond the bounding box of the polyhedron, first in the list
+        verts = [v for f in faces for v in f]
+        far = max(v[0] for v in verts) + 3
+        uv = [["0", "0"], ["1", "0"], ["0", "1"]]
+        fr = [_s2((far, F(0), F(0))), _s2((F(1), F(0), F(0))), _s2((F(0), F(1), F(1)))]
+        polys.insert(0, [_s2((far, F(0), F(0))), _s2((far + 1, F(0), F(0))), _s2((far, F(1), F(1)))])
+        kinds.insert(0, "outside-bbox"); planes.insert(0, {"uv": uv, "frame": fr})
+    return {"kind": "p3d", "fam": fam, "stratum": stratum, "faces": [[_s2(v) for v in f] for f in faces], "polygons": polys,
+            "poly_kinds": kinds, "planes": planes}
 
 
 # ============================================================================ decoding of cases
@@ -594,11 +644,21 @@ def _call_lines(case):
     poly = _pts(case["poly"])
     segs = [_pts(s) for s in case["segs"]]
     k = len(segs)
-    pts = _farr([p for s in segs for p in s])
-    edges = np.arange(2 * k).reshape((2, -1), order="F")
+    stratum = case.get("stratum", "plain")
+    if stratum == "shared-points":  # every distinct point stored once, in permuted (descending) order
+        uniq = sorted({p for s in segs for p in s}, reverse=True)
+        pts = _farr(uniq)
+        edges = np.array([[uniq.index(s[0]) for s in segs], [uniq.index(s[1]) for s in segs]], dtype=int).reshape((2, k))
+    else:
+        pts = _farr([p for s in segs for p in s]) if k else np.zeros((2, 0))
+        edges = np.arange(2 * k).reshape((2, -1), order="F")
     if case["tags"]:
         edges = np.vstack([edges, np.array(case["tags"], dtype=int).reshape((len(case["tags"]), k))])
-    return poly, segs, edges, lines_by_polygon(_farr(poly), pts, edges)
+    ppts = _farr(poly)
+    if stratum == "three-rows":  # callers hold 3 x n arrays; only the first two rows are used
+        pts = np.vstack([pts, np.zeros((1, pts.shape[1]))])
+        ppts = np.vstack([ppts, np.zeros((1, ppts.shape[1]))])
+    return poly, segs, edges, lines_by_polygon(ppts, pts, edges)
 
 
 def _params(segs, int_pts, edges_kept):
@@ -655,8 +715,10 @@ def _area_of(c):
     return norm3f(vec_area(pl))
 
 
-def _call_p3d(faces, polys):
+def _call_p3d(faces, polys, as_array=False):
     from porepy.geometry.constrain_geometry import polygons_by_polyhedron
+    if as_array and len(polys) == 1:  # alternative entry: a single polygon as an array instead of a list
+        return polygons_by_polyhedron(_farr(polys[0]), [_farr(f) for f in faces])
     return polygons_by_polyhedron([_farr(p) for p in polys], [_farr(f) for f in faces])
 
 
@@ -664,7 +726,7 @@ def _impl_p3d(case):
     faces = [_pts(f) for f in case["faces"]]
     polys = [_pts(p) for p in case["polygons"]]
     try:
-        cp, inds = _call_p3d(faces, polys)
+        cp, inds = _call_p3d(faces, polys, case.get("stratum") == "as-array")
     except Exception as e:
         return err_kind(e)
     areas = [0.0] * len(polys)
@@ -690,7 +752,13 @@ def model_ops(case):
                 ops.append({"op": "clip_convex", "poly": case["poly"], "seg": s})
         return ops
     hs = [[frac(n[0]), frac(n[1]), frac(n[2]), frac(c)] for n, c in halfspaces([_pts(f) for f in case["faces"]])]
-    return [{"op": "shclip", "hs": hs, "poly": p} for p in case["polygons"]]
+    ops = []
+    for i, p in enumerate(case["polygons"]):
+        op = {"op": "shclip", "hs": hs, "poly": p}
+        if case.get("planes"):  # plane coordinates: the driver evaluates the hypotheses of the completeness theorems
+            op.update(uv=case["planes"][i]["uv"], frame=case["planes"][i]["frame"])
+        ops.append(op)
+    return ops
 
 
 def model_decode(outs, case):
@@ -707,6 +775,8 @@ def model_decode(outs, case):
                 oc = outs[k]
                 k += 1
                 want = [] if oc["open"] is None else [oc["open"]]
+                if oc["convex"] is not True:
+                    return {"err": "model-internal: polygon convex for the harness but convexCCWb fails in the driver"}
                 if want != merged:
                     return {"err": f"model-internal: half-plane model {want} differs from crossing model {merged}"}
             pieces.append(merged)
@@ -715,6 +785,11 @@ def model_decode(outs, case):
     areas = []
     for o in outs:
         a = [F(x) for x in o["area2"]]
+        if "convex_ccw" in o:  # hypotheses of sh_clip_complete_decidable, evaluated by the driver
+            a2 = [F(x) for x in o["area2_2d"]]
+            if not (o["convex_ccw"] and o["embed_ok"] and o["planar_ok"]) or dot3(a, a) != dot3(a2, a2):
+                return {"err": f"model-internal: convex_ccw={o['convex_ccw']} embed_ok={o['embed_ok']} planar_ok={o['planar_ok']} "
+                               f"area2 {o['area2']} vs 2d {o['area2_2d']}"}
         areas.append(norm3f(a) / 2)
     return {"areas": areas}
 
@@ -777,6 +852,20 @@ def _oracle_lines(case):
             return {"what": f"edge {ei} {[str(x) for x in P[0]]}-{[str(x) for x in P[1]]}: returned length {lg * L} but segment ∩ polygon has length {lw * L} "
                             f"(parameters {got} vs {[(str(a), str(b)) for a, b in want]})",
                     "key": "lines:length-missing" if lg < lw else "lines:length-excess"}
+    # repeated operation: clipping the returned pieces again returns them unchanged
+    if k:
+        from porepy.geometry.constrain_geometry import lines_by_polygon
+        e2 = np.arange(2 * k).reshape((2, -1), order="F")
+        p2, _, k2 = lines_by_polygon(_farr(poly), int_pts, e2)
+        segs2 = [[(F(float(int_pts[0, 2 * i])), F(float(int_pts[1, 2 * i]))), (F(float(int_pts[0, 2 * i + 1])), F(float(int_pts[1, 2 * i + 1])))]
+                 for i in range(k)]
+        again = {}
+        for ei, a, b, _ in _params(segs2, p2, k2):
+            again.setdefault(ei, []).append((a, b))
+        for i in range(k):  # as point sets (a piece through a polygon vertex may come back in two parts)
+            m = _merge_f(again.get(i, []))
+            if len(m) != 1 or abs(m[0][0]) > 1e-7 or abs(m[0][1] - 1) > 1e-7:
+                return {"what": f"clipping returned piece {i} again does not return it unchanged: parameters {m}", "key": "lines:not-idempotent"}
     return None
 
 
@@ -823,7 +912,7 @@ def _oracle_p3d(case):
         fl = flags3(faces, p)
         cls = class3(fl)
         try:
-            cp, inds = _call_p3d(faces, [p])
+            cp, inds = _call_p3d(faces, [p], case.get("stratum") == "as-array")
         except Exception as e:
             if cls == "coplanar":
                 return None
@@ -905,6 +994,7 @@ def stats(cases, impl_outs):
     from collections import Counter
     c = Counter()
     for case, out in zip(cases, impl_outs):
+        c["stratum:" + case["kind"] + ":" + case.get("stratum", "corpus")] += 1
         if case["kind"] == "lines":
             c["lines_cases"] += 1
             c["polygon:" + case.get("fam", "corpus")] += 1
